@@ -163,10 +163,11 @@ Proof.
 Qed.
 
 Lemma bad_addr_neg : BAD_ADDR < 0. Proof. reflexivity. Qed.
+Lemma empty_addr_neg : EMPTY_ADDR < 0. Proof. reflexivity. Qed.
 
 Lemma ent_addrs_ok_of_wf e : 0 <= ent_signer e -> ent_msg_wf e -> EM.ent_msg_addrs_ok e.
 Proof.
-  pose proof bad_addr_neg. destruct e as [p d amt|sg poid dec|sg t act]; cbn; intros; try split; lia.
+  pose proof bad_addr_neg. pose proof empty_addr_neg. destruct e as [p d amt|sg poid dec|sg t act]; cbn; intros; try split; lia.
 Qed.
 
 Lemma ofold_unit_ext {B} (g1 g2 : B -> outcome unit) l :
@@ -746,7 +747,7 @@ Proof.
   - injection H as _ <-. auto.
   - destruct (aget id (e_pos s)) as [o|] eqn:G; [|discriminate].
     destruct (negb (po_status o =? ST_ACCEPTED)); [discriminate|].
-    destruct (po_purchaser o =? BAD_ADDR); [discriminate|].
+    destruct (negb (addr_parses (po_purchaser o))); [discriminate|].
     match type of H with match ?e with _ => _ end = _ => destruct e as [[b2 s2]|?|?] eqn:M end; try discriminate.
     apply mint_and_lock_core in M. unfold ent_core in M. cbn [with_pos e_params e_next e_pos] in M.
     injection M as Mp Mn Mo _ _ _.
